@@ -2131,6 +2131,88 @@ theorem step_of_not_anteOk (s : State) (m : Op) (hm : m.isMsg = true) (h : anteO
   | setFunders _ => simp [Op.isMsg] at hm
   | setContracts _ => simp [Op.isMsg] at hm
 
+/-! ### the wasm route (messages a contract dispatches) -/
+
+theorem wasm_ok (s : State) (c : Addr) (depth : Nat) (g : Addr) (msgs : List Op)
+    (h : (wasm s c depth g msgs).2 = .ok) :
+    s.acct c ≠ .none ∧ msgs ≠ [] ∧ depth ≤ maxExecDepth ∧ (∀ m ∈ msgs, creatorIs c m = true) ∧
+      (∀ m ∈ msgs, signerIs c m = true) ∧ execAll s msgs = some (wasm s c depth g msgs).1 := by
+  unfold wasm at h ⊢
+  split at h
+  · cases h
+  · rename_i h0
+    split at h
+    · cases h
+    · rename_i h1
+      split at h
+      · cases h
+      · rename_i h2
+        split at h
+        · cases h
+        · rename_i h3
+          split at h
+          · cases h
+          · rename_i h4
+            split at h
+            · cases h
+            · rename_i h5
+              split at h
+              · cases h
+              · rename_i h6
+                split at h
+                · cases h
+                · rename_i s' hs
+                  have a4 : msgs.all (creatorIs c) = true := by simpa using h4
+                  have a6 : msgs.all (signerIs c) = true := by simpa using h6
+                  refine ⟨h0, by simpa using h1, by omega, List.all_eq_true.mp a4, List.all_eq_true.mp a6, ?_⟩
+                  simp [h0, h1, h2, h3, h4, h5, h6, hs]
+
+theorem wasm_rejected (s : State) (c : Addr) (depth : Nat) (g : Addr) (msgs : List Op)
+    (h : (wasm s c depth g msgs).2 = .rejected) : (wasm s c depth g msgs).1 = s := by
+  have : (wasm s c depth g msgs).1 = s ∨ (wasm s c depth g msgs).2 = .ok := by
+    unfold wasm
+    repeat' split
+    all_goals first | (left; rfl) | (right; rfl)
+  rcases this with h' | h'
+  · exact h'
+  · rw [h'] at h; cases h
+
+/-- a message that names `c` as creator and as its declared signer passes the ante check of a transaction signed
+by `c` (which has an account) -/
+theorem anteOk_of_own (s : State) (c : Addr) (m : Op) (hc : s.acct c ≠ .none) (h1 : creatorIs c m = true)
+    (h2 : signerIs c m = true) : anteOk s m = true := by
+  cases m with
+  | create sg cr cl amt d mo now =>
+    simp only [creatorIs, signerIs, beq_iff_eq] at h1 h2
+    subst h1; subst h2
+    simp [anteOk, authorised, hc]
+  | activate sg cr now =>
+    simp only [creatorIs, signerIs, beq_iff_eq, Bool.and_eq_true] at h1 h2
+    subst h2
+    simp [anteOk, authorisedStr, hc, h1.1, h1.2]
+  | auth sg cr =>
+    simp only [creatorIs, signerIs, beq_iff_eq, Bool.and_eq_true] at h1 h2
+    subst h2
+    simp [anteOk, authorisedStr, hc, h1.1, h1.2]
+  | legacy sg cr =>
+    simp only [creatorIs, signerIs, beq_iff_eq] at h1 h2
+    subst h1; subst h2
+    simp [anteOk, authorised, hc]
+  | send a b d amt now =>
+    simp only [signerIs, beq_iff_eq] at h2
+    subst h2
+    simp [anteOk, hc]
+  | grant g e =>
+    simp only [signerIs, beq_iff_eq] at h2
+    subst h2
+    simp [anteOk, hc]
+  | sale _ _ _ _ _ => simp [signerIs] at h2
+  | gift _ _ _ _ => simp [signerIs] at h2
+  | fund _ _ _ => simp [signerIs] at h2
+  | setFeegranter _ => simp [signerIs] at h2
+  | setFunders _ => simp [signerIs] at h2
+  | setContracts _ => simp [signerIs] at h2
+
 end Lemmas
 
 
@@ -2913,6 +2995,94 @@ theorem tx_activate_only_by_licensee_or_delegate_history (evs : List Ev) (msgs :
     · subst hop; exact Or.inr (Or.inl ⟨pre, post, he, hk⟩)
     · subst hop; exact Or.inr (Or.inr ⟨pre, ch, c, gr, ct, t, post, he, hc, hk, hfg, hset⟩)
 
+/-! ### the wasm route: messages dispatched by a CONTRACT (CosmosMsg::Any, bare or inside authz.MsgExec)
+
+No ante handler sees these messages; the creator gate of the wasm message router stands in for it.  The gate is a
+function of the dispatching contract and the message ALONE (`wasm` takes no router state): what the same router let
+through earlier — honest dispatches of the same or of another contract, in this block or an earlier one — cannot
+make it accept a message it would refuse on a freshly started node (`wasm_activate_only_by_licensee_history`). -/
+
+/-- **wasm_all_or_nothing** (failed_op_is_noop for a contract's dispatch) -/
+theorem wasm_all_or_nothing (s : State) (c : Addr) (depth : Nat) (g : Addr) (msgs : List Op)
+    (h : (wasm s c depth g msgs).2 = .rejected) : (wasm s c depth g msgs).1 = s :=
+  wasm_rejected s c depth g msgs h
+
+/-- **wasm_is_own_tx**: an ACCEPTED dispatch of contract `c` — bare or under any number of `MsgExec` wrappers — is
+exactly the transaction with the same messages that the address `c` could have signed itself: every message names
+`c` as creator and as declared signer.  A contract can do through the wasm route nothing an ordinary account could
+not do in its own name; in particular every theorem about accepted transactions applies. -/
+theorem wasm_is_own_tx (s : State) (c : Addr) (depth : Nat) (g : Addr) (msgs : List Op)
+    (hok : (wasm s c depth g msgs).2 = .ok) :
+    tx s msgs = wasm s c depth g msgs ∧ ∀ m ∈ msgs, creatorIs c m = true ∧ signerIs c m = true := by
+  obtain ⟨hc, hne, _, h4, h6, he⟩ := wasm_ok s c depth g msgs hok
+  refine ⟨?_, fun m hm => ⟨h4 m hm, h6 m hm⟩⟩
+  have ha : msgs.all (anteOk s) = true :=
+    List.all_eq_true.mpr (fun m hm => anteOk_of_own s c m hc (h4 m hm) (h6 m hm))
+  have h0 : msgs.isEmpty = false := by cases msgs with
+    | nil => exact absurd rfl hne
+    | cons _ _ => rfl
+  have : tx s msgs = ((wasm s c depth g msgs).1, .ok) := by simp [tx, h0, ha, he]
+  rw [this]
+  exact Prod.ext rfl hok.symm
+
+/-- **wasm_activate_only_by_licensee** — "activated … only by the licensed address itself", for messages a contract
+dispatches: if an ACCEPTED dispatch of contract `c` carries, bare or at ANY position of the message list inside ANY
+number of `MsgExec` wrappers and next to ANY other messages, a `MsgRegisterLightNodeClient` for the licence stored
+under `k`, then `k` is the canonical spelling of `c`'s own address and `c` is the declared signer: the contract
+activated its OWN licence.  (No fee-grant delegation on this route: the router wants creator = contract.) -/
+theorem wasm_activate_only_by_licensee (s : State) (c : Addr) (depth : Nat) (g : Addr) (msgs : List Op)
+    (hok : (wasm s c depth g msgs).2 = .ok) (sg : Addr) (k : AddrStr) (now : Nat)
+    (hm : Op.activate sg k now ∈ msgs) : k = ⟨c, false⟩ ∧ sg = c := by
+  obtain ⟨h1, h2⟩ := (wasm_is_own_tx s c depth g msgs hok).2 _ hm
+  simp only [creatorIs, signerIs, beq_iff_eq, Bool.and_eq_true] at h1 h2
+  refine ⟨?_, h2⟩
+  cases k with
+  | mk a u => simp only at h1; simp [h1.1, h1.2]
+
+/-- the same for the payer of a licence: a contract's dispatch buys licences only with the contract's own coins -/
+theorem wasm_create_only_by_payer (s : State) (c : Addr) (depth : Nat) (g : Addr) (msgs : List Op)
+    (hok : (wasm s c depth g msgs).2 = .ok) (sg cr : Addr) (cl : Option AddrStr) (amt : Int) (d : Denom)
+    (mo now : Nat) (hm : Op.create sg cr cl amt d mo now ∈ msgs) : cr = c ∧ sg = c := by
+  obtain ⟨h1, h2⟩ := (wasm_is_own_tx s c depth g msgs hok).2 _ hm
+  simpa only [creatorIs, signerIs, beq_iff_eq] using And.intro h1 h2
+
+theorem stepW_reachable {s : State} (hs : Reachable s) (e : WEv) : Reachable (stepW s e).1 := by
+  cases e with
+  | ev e =>
+    cases e with
+    | op o => exact reachable_step hs o
+    | tx msgs => exact tx_reachable hs msgs
+  | wasm c depth g msgs =>
+    simp only [stepW]
+    cases hr : (wasm s c depth g msgs).2 with
+    | rejected => rw [wasm_rejected s c depth g msgs hr]; exact hs
+    | ok =>
+      rw [← (wasm_is_own_tx s c depth g msgs hr).1]
+      exact tx_reachable hs msgs
+
+/-- **runW_reachable**: every state reached by a history that contains contract dispatches (next to single
+operations and multi-message transactions) is reached by a history of single operations — so every theorem stated
+for `Reachable` states holds for such histories (escrow equation, one licence per address, no licence after
+activation, vesting accounts never change, …). -/
+theorem runW_reachable (evs : List WEv) : Reachable (runW State.init evs) := by
+  suffices h : ∀ s, Reachable s → Reachable (runW s evs) from h _ ⟨[], rfl⟩
+  induction evs with
+  | nil => intro s hs; exact hs
+  | cons e es ih => intro s hs; exact ih _ (stepW_reachable hs e)
+
+/-- … for instance the escrow equation -/
+theorem escrow_eq_sum_licences_w (evs : List WEv) (d : Denom) :
+    (runW State.init evs).escrow d = sumLic d (runW State.init evs).lics + (runW State.init evs).gifts d :=
+  (reachable_inv (runW_reachable evs)).escrow d
+
+/-- **wasm_activate_only_by_licensee_history**: after ANY history — whatever contracts dispatched before through
+the same router, honest `MsgExec`s included — an accepted dispatch of contract `c` that carries a registration for
+`k` activates `c`'s own licence, which was pending. -/
+theorem wasm_activate_only_by_licensee_history (evs : List WEv) (c : Addr) (depth : Nat) (g : Addr)
+    (msgs : List Op) (hok : (wasm (runW State.init evs) c depth g msgs).2 = .ok) (sg : Addr) (k : AddrStr)
+    (now : Nat) (hm : Op.activate sg k now ∈ msgs) : k = ⟨c, false⟩ ∧ sg = c :=
+  wasm_activate_only_by_licensee _ c depth g msgs hok sg k now hm
+
 /-! ## non-vacuity -/
 
 /-- a small history: two funded accounts, full sale configuration, one licence bought by message, one by an
@@ -3061,5 +3231,20 @@ example : (runEv State.init ((exOps.map Ev.op) ++ [.tx [.legacy 0 0, .activate 0
     (flatten State.init ((exOps.map Ev.op) ++ [.tx [.legacy 0 0, .activate 0 ⟨4, false⟩ 200],
       .tx [.legacy 0 0, .activate 4 ⟨4, false⟩ 200]])).length = exOps.length + 2 := by
   decide
+
+/-! the wasm route: address 4 (licensed, base account) standing for a contract activates its OWN licence, bare and
+inside two MsgExec wrappers next to another message; contract 0 cannot activate 4's licence — bare, wrapped, after
+its own honest wrapped dispatch went through, with 4 as declared signer, or seven wrappers deep -/
+example : (wasm exState 4 0 4 [.activate 4 ⟨4, false⟩ 200]).2 = .ok ∧
+    (wasm exState 4 2 4 [.legacy 4 4, .activate 4 ⟨4, false⟩ 200]).2 = .ok ∧
+    (wasm exState 4 2 4 [.legacy 4 4, .activate 4 ⟨4, false⟩ 200]).1.acct 4 = .vesting 1000 0 200 7776200 := by decide
+example : (wasm exState 0 0 0 [.activate 0 ⟨4, false⟩ 200]).2 = .rejected ∧
+    (wasm exState 0 1 0 [.legacy 0 0, .activate 0 ⟨4, false⟩ 200]).2 = .rejected ∧
+    (wasm exState 0 1 0 [.activate 4 ⟨4, false⟩ 200]).2 = .rejected ∧
+    (wasm exState 4 7 4 [.activate 4 ⟨4, false⟩ 200]).2 = .rejected ∧
+    (wasm exState 4 1 0 [.activate 4 ⟨4, false⟩ 200]).2 = .rejected := by decide
+example : (stepW (runW State.init (exOps.map (fun o => WEv.ev (.op o)))) (.wasm 0 1 0 [.legacy 0 0, .send 0 (some 1) 0 5 130])).2 = .ok ∧
+    (wasm (runW State.init (exOps.map (fun o => WEv.ev (.op o)) ++ [.wasm 0 1 0 [.legacy 0 0, .send 0 (some 1) 0 5 130]]))
+      0 1 0 [.activate 0 ⟨4, false⟩ 200]).2 = .rejected := by decide
 
 end Paloma.LightNode
